@@ -276,7 +276,7 @@ def attribute(unfixed, res, p):
 
 def node_families(ctx, cur):
     r = ctx.rng("families")
-    n = 48 if ctx.quick else 1200
+    n = 48 if ctx.quick else 800
     fams = [F.gen_family(r) for _ in range(n)]
     res = run_driver(ctx, fams, "families")
     vs, unfixed = variants_for(cur)
